@@ -10,6 +10,9 @@ Inductive rw := AR | AW.
 Definition heldset := list (string * string * mode).   (* lock field, object expression, mode *)
 Record lock_fact := mk_lf { lf_fn : string; lf_field : string; lf_rw : rw; lf_base : string; lf_held : heldset }.
 
+(* critical sections: how often a function acquires a lock and whether it writes state guarded by it *)
+Record cs_fact := mk_cs { cs_fn : string; cs_lock : string; cs_regions : nat; cs_writes : bool }.
+
 Inductive vkind := VOnceInit | VAfterOnce | VAtomic | VPlain.
 Record var_fact := mk_vf { vf_fn : string; vf_var : string; vf_rw : rw; vf_kind : vkind }.
 
@@ -73,6 +76,11 @@ Definition access_ok (x : lock_fact) : bool :=
   end.
 
 Definition unguarded (fs : list lock_fact) : list lock_fact := filter (fun x => negb (access_ok x)) fs.
+
+(* a function that changes the cache does its read-decide-write in ONE critical
+   section: it acquires the cache lock exactly once (so nothing can be stored,
+   renewed or removed between the read that decides and the write that acts) *)
+Definition cs_ok (c : cs_fact) : bool := negb (cs_writes c) || Nat.eqb (cs_regions c) 1.
 
 Definition var_ok (v : var_fact) : bool :=
   match vf_kind v with VPlain => false | _ => true end.
